@@ -201,3 +201,78 @@ impl RngCore for FaultRng {
 }
 
 impl CryptoRng for FaultRng {}
+
+
+// ---- the shape of the RNG object ---------------------------------------------------------------
+//
+// The external RNG is a generic argument of the prover. What the prover does with it must depend on the
+// bytes it serves, not on what kind of object serves them. `HandleRng` is the other common shape: a
+// zero-sized handle (like `rand_core::OsRng` or a thread-local generator) whose state lives elsewhere.
+
+thread_local! {
+    static CURRENT: std::cell::Cell<*mut FaultRng> = std::cell::Cell::new(std::ptr::null_mut());
+    static VIA_HANDLE: std::cell::Cell<bool> = std::cell::Cell::new(false);
+}
+
+/// Zero-sized handle onto the `FaultRng` installed on this thread.
+pub struct HandleRng;
+
+impl RngCore for HandleRng {
+    fn next_u32(&mut self) -> u32 {
+        let mut b = [0u8; 4];
+        self.fill_bytes(&mut b);
+        u32::from_le_bytes(b)
+    }
+
+    fn next_u64(&mut self) -> u64 {
+        let mut b = [0u8; 8];
+        self.fill_bytes(&mut b);
+        u64::from_le_bytes(b)
+    }
+
+    fn fill_bytes(&mut self, dest: &mut [u8]) {
+        let p = CURRENT.with(|c| c.get());
+        assert!(!p.is_null(), "harness: HandleRng used without an installed generator");
+        // the installer holds the only other reference and does not touch it while the handle is in use
+        unsafe { (*p).fill_bytes(dest) }
+    }
+
+    fn try_fill_bytes(&mut self, dest: &mut [u8]) -> Result<(), rand_core::Error> {
+        self.fill_bytes(dest);
+        Ok(())
+    }
+}
+
+impl CryptoRng for HandleRng {}
+
+pub struct HandleInstalled;
+
+impl HandleInstalled {
+    pub fn install(rng: &mut FaultRng) -> HandleInstalled {
+        CURRENT.with(|c| c.set(rng as *mut FaultRng));
+        HandleInstalled
+    }
+}
+
+impl Drop for HandleInstalled {
+    fn drop(&mut self) {
+        CURRENT.with(|c| c.set(std::ptr::null_mut()));
+    }
+}
+
+/// Should provers started on this thread receive the zero-sized handle instead of the generator itself?
+pub fn via_handle() -> bool {
+    VIA_HANDLE.with(|c| c.get())
+}
+
+/// Run `f` with every prover call on this thread served through the zero-sized handle.
+pub fn with_handle<T>(on: bool, f: impl FnOnce() -> T) -> T {
+    struct Restore(bool);
+    impl Drop for Restore {
+        fn drop(&mut self) {
+            VIA_HANDLE.with(|c| c.set(self.0));
+        }
+    }
+    let _r = Restore(VIA_HANDLE.with(|c| c.replace(on)));
+    f()
+}
